@@ -378,6 +378,13 @@ def gen_scn(r, family, tier):
     scn = {"kind": family, "tps": tps, "arrivals": arrivals, "nops": [r.choice([1, 1, 2, 4]) for _ in arrivals],
            "extra_col": r.random() < 0.4, "id_prefix": r.choice(["p", "pipe-", "q"])}
     if family == "jitter":
+        if r.random() < 0.35:
+            # jitter must sort whatever it is given: also feed it traces that are not in arrival order
+            idx = list(range(len(arrivals)))
+            r.shuffle(idx)
+            scn["arrivals"] = [arrivals[i] for i in idx]
+            scn["nops"] = [scn["nops"][i] for i in idx]
+            scn["unsorted_input"] = True
         scn["delta"] = r.choice([0, 0, 1e-6, 0.001, 0.5 / tps, 1 / tps, 1.0, 10.0])
         scn["seed"] = r.choice([None, 0, 1, 42, r.randint(0, 10 ** 6)])
         scn["seed_step"] = r.randint(0, 5)
